@@ -20,9 +20,9 @@ CLAIMED = {
              text="All interleavings of bounded multi-context programs on the model; schedules (as data) are forced on real threads, with current_action() read inside each context before and after each of its steps.", ref="6 C05"),
  "C07": dict(tech="TLA+ spec + TLC invariant C07_NeverRaises over all subsets of raising destinations/serializers/extractors + trace validation with injected faults and hostile witnesses; every public call wrapped",
              text="Every fault subset within bounds on the model; on the code each call's outcome (returned / application exception / anything else) is recorded and compared.", ref="6 C07"),
- "C08": dict(tech="TLA+ spec + TLC invariants C08_OnceEachInOrder (vs a denotational ghost) and C08_OneReportPerFailure over all failure masks + per-destination delivery sequences validated by TLC; concurrent fan-out (FanoutA.tla); destinations that call back into the library while they are called (ReentrantA.tla)",
+ "C08": dict(tech="TLA+ spec + TLC invariants C08_OnceEachInOrder (vs a denotational ghost) and C08_OneReportPerFailure over all failure masks + per-destination delivery sequences validated by TLC; concurrent fan-out (FanoutA.tla); destinations that call back into the library while they are called (ReentrantA.tla); logger routing with mixed loggers (Route.tla: every behaviour TLC emits replayed, failure reports must reach the destinations)",
              text="All failure masks over bounded call sequences for 2-3 destinations on the model; per-destination offered sequences of real executions (up to 4 destinations) validated delivery by delivery.", ref="6 C08"),
- "C13": dict(tech="TLA+ spec + TLC invariants C13_FailedNotDelivered/FailureReports over all failing-serializer subsets and missing declared fields + trace validation with symbolic serializers (exactly-once detectable) on typed actions/messages",
+ "C13": dict(tech="TLA+ spec + TLC invariants C13_FailedNotDelivered/FailureReports over all failing-serializer subsets and missing declared fields + trace validation with symbolic serializers (exactly-once detectable) on typed actions/messages; bounded-pre-emption schedules of threads failing to serialize through one Logger judged by TLC (FanoutA.tla)",
              text="All subsets of failing serializers for start/success/stand-alone typed messages on the model; on the code harness serializers wrap values so double application is visible, placement of eliot:traceback / eliot:serialization_failure compared with the spec.", ref="6 C13"),
 }
 
